@@ -83,7 +83,11 @@ class Builder:
         """instance of a repository class (or an anonymous record) with the given fields"""
         from .core import Obj
         cls = self.I.repo.locate_class(qualname, self.I) if qualname else None
-        return Obj(cls, fields)
+        absent = fields.pop('_absent', ())
+        o = Obj(cls, fields)
+        o.abstract = True            # fields not listed here are unknown to the contract (-> undecided), except
+        o.absent = set(absent)       # those declared absent (reading them raises AttributeError, as in python)
+        return o
 
     # -- quantifiers --------------------------------------------------------
     def forall(self, lo, hi, body, name='i'):
